@@ -13,6 +13,10 @@ func genGeneric(c *Ctx) {
 	gen.CheckAliasAware(c.Run, c.Prog)
 	lookupTable(c)
 	representativeTable(c)
+	// a parameter whose type is a type parameter must not be named after it (it would shadow the type parameter)
+	if na, err := gen.ResolveNameAlloc(c.Prog); err == nil {
+		namingTable(c, na)
+	}
 }
 
 func genFormat(c *Ctx) {}
